@@ -60,7 +60,7 @@ type projState struct {
 	p        *project
 	base     runResult
 	sites    []string
-	variants map[string]string // step|file|sha(content) -> signature of the single-site finding that produced it
+	variants map[string]string // file|sha(content) -> signature of the single-site finding that produced it
 	hashes   map[string]bool   // distinct tree hashes over all runs and steps... of step-k trees: key "k:hash"
 	orderDep map[string]bool   // files with an order-dependence finding
 }
@@ -79,7 +79,7 @@ func main() {
 			c.Budget(time.Duration(n) * time.Second)
 		}
 	}
-	c.MaxSamp = 8
+	c.MaxSamp = 9
 	r := buildRig()
 	if rp := common.ReplayArg(); rp != "" {
 		replay(r, rp)
@@ -108,8 +108,7 @@ func main() {
 		states      = map[string]bool{}
 		exhaustive  = true
 		incomplete  []string
-		sampleKinds = map[string]bool{}
-	)
+		)
 	addState := func(s runSpec, steps int) {
 		for k := 1; k <= steps; k++ {
 			states[fmt.Sprintf("%s|%s|%s|%d|%v|%d", s.Project, s.MapOrder, s.StartDir, s.MaxProcs, s.Plain, s.firstStep()+k)] = true
@@ -257,6 +256,20 @@ func main() {
 						o.rerun = &rr
 						o.execs += len(rr.Steps)
 					}
+					// keep memory flat: file contents equal to the baseline share its strings
+					for _, rr := range []*runResult{&o.res, o.rerun} {
+						if rr == nil {
+							continue
+						}
+						for k := range rr.Steps {
+							base := st.base.Steps[j.spec.firstStep()+k].Tree
+							for f, content := range rr.Steps[k].Tree {
+								if bc, ok := base[f]; ok && bc == content {
+									rr.Steps[k].Tree[f] = bc
+								}
+							}
+						}
+					}
 					out <- o
 				}
 			}(w)
@@ -301,10 +314,15 @@ func main() {
 				st.hashes[fmt.Sprintf("%d:%s", o.job.spec.firstStep()+k+1, treeHash(s.Tree))] = true
 			}
 			evaluate(st, r, o)
-			if !sampleKinds[o.job.phase+o.job.spec.Project] && o.job.phase != "context" && len(sampleKinds) < 8 {
-				sampleKinds[o.job.phase+o.job.spec.Project] = true
-				c.Sample(map[string]any{"history": o.job.spec, "deviated_sites": o.job.sites, "tree_sha256_per_step": stepHashes(o.res)})
-			}
+		}
+		// samples: three histories spread over the phase
+		step := len(outs) / 3
+		if step == 0 {
+			step = 1
+		}
+		for i := step / 2; i < len(outs); i += step {
+			o := outs[i]
+			c.Sample(map[string]any{"phase": o.job.phase, "history": o.job.spec, "deviated_sites": o.job.sites, "tree_sha256_per_step": stepHashes(o.res)})
 		}
 	}
 	runPhase("contexts+single-site", phaseA)
@@ -442,15 +460,12 @@ func describeDiff(base, got map[string]string, f string) map[string]any {
 
 // checkIdempotent is O2 on one run: T2 == T1.
 func checkIdempotent(st *projState, res runResult, spec runSpec) {
-	var t1, t2 map[string]string
-	switch {
-	case spec.FromT1 && len(res.Steps) == 1 && res.Steps[0].Exit == 0:
-		t1, t2 = st.base.Steps[0].Tree, res.Steps[0].Tree
-	case !spec.FromT1 && len(res.Steps) == 2 && res.Steps[0].Exit == 0 && res.Steps[1].Exit == 0:
-		t1, t2 = res.Steps[0].Tree, res.Steps[1].Tree
-	default:
+	// (a run that starts from the baseline's T1 is covered by O1: its result is compared with the
+	// baseline's T2, and the baseline's own T1/T2 pair is checked here)
+	if spec.FromT1 || len(res.Steps) != 2 || res.Steps[0].Exit != 0 || res.Steps[1].Exit != 0 {
 		return
 	}
+	t1, t2 := res.Steps[0].Tree, res.Steps[1].Tree
 	for _, f := range differingFiles(t1, t2) {
 		minus, plus := lineDiff(t1[f], t2[f])
 		fp := common.Hash(minus, plus)
@@ -480,7 +495,7 @@ func evaluate(st *projState, r *rig, o outcome) {
 		base := st.base.Steps[k].Tree
 		for _, f := range differingFiles(base, s.Tree) {
 			content, present := s.Tree[f]
-			vkey := fmt.Sprintf("%d|%s|%s|%v", k+1, f, sha(content), present)
+			vkey := fmt.Sprintf("%s|%s|%v", f, sha(content), present)
 			var sig, what string
 			switch {
 			case !reproducible:
